@@ -224,7 +224,7 @@ PROPS = {
         "run": run_c11,
         "level": "exploration",
         "design_ref": "DESIGN.md section 4 C11",
-        "level_text": "Two independent monitors per session: (1) lockstep reference model (pause positions, sorted duplicate-free breakpoint list at every prompt, .break -> address from the reference assembler); (2) a trace invariant over the interleaved fetch/prompt event log: an instruction at a breakpointed address is fetched only directly after a prompt at that address. Exhaustive scripts up to length 3/4 on loop programs (one- and two-instruction loops, call loops) with locations given absolutely, by label and by PC offset; .break at every placement of generated programs; random sessions.",
+        "level_text": "Two independent monitors per session: (1) lockstep reference model (pause positions, sorted duplicate-free breakpoint list at every prompt, .break -> address from the reference assembler); (2) a trace invariant over the interleaved fetch/prompt event log: an instruction at a breakpointed address is fetched only directly after a prompt at that address. Exhaustive scripts up to length 3/4 on loop programs (one- and two-instruction loops, call loops) with locations given absolutely, by label and by PC offset; .break at every placement of generated programs; random sessions. Plus a CLI layer: a declared breakpoint inside a loop, visited three times, with scripts containing empty commands delivered on standard input, by --command and split.",
         "level_note": "Breakpoint set in force between two prompts is taken from the real list at the later prompt (bp changes only happen at prompts).",
         "technique": "runtime monitoring: event-log trace invariant + reference-model lockstep over hooked prompts and fetches",
         "rule": "case = (program with/without .break, script); non-trivial = some pause happened at a breakpointed address; distinct = hash of source and script",
@@ -254,7 +254,7 @@ PROPS = {
         "run": run_c16,
         "level": "exploration",
         "design_ref": "DESIGN.md section 4 C16",
-        "level_text": "Bounded-progress monitor (the decidable restatement of the liveness claim): for every session the run-loop iteration count (tick hook) must stay within 2*(instructions executed + commands read + 1) + 8, and a session whose reference model terminates must terminate; non-termination is decided on logical iterations (fuel), never wall clock. Workload: programs that reach PC=0xFFFF by computed jump, PC below the origin, PC >= 0xFE00 or HALT, with every resuming command issued there, followed by end of input. At the CLI, sessions through the real --command and stdin readers with scripts ending in every awkward way (no final newline, comment-like text, stray quotes, NUL), judged on CPU time (RLIMIT_CPU), never wall clock.",
+        "level_text": "Bounded-progress monitor (the decidable restatement of the liveness claim): for every session the run-loop iteration count (tick hook) must stay within 2*(instructions executed + commands read + 1) + 8, and a session whose reference model terminates must terminate; non-termination is decided on logical iterations (fuel), never wall clock. Workload: programs that reach PC=0xFFFF by computed jump, PC below the origin, PC >= 0xFE00 or HALT, with every resuming command issued there, followed by end of input. At the CLI, sessions through the real --command and stdin readers with scripts ending in every awkward way (no final newline, comment-like text, stray quotes, NUL), judged on CPU time (RLIMIT_CPU), never wall clock. Plus sessions with a terminal around them (script on redirected standard input while the messages go to a pseudo-terminal that is the controlling terminal; a scripted session beside an idle one), decided on /proc state (asleep in one system call, CPU time standing still) rather than on a deadline; the bound is also checked on runs the reference machine discards (RTI).",
         "level_note": "Unbounded 'eventually terminates' is not decidable by monitoring; the bound is what the property's second sentence states.",
         "technique": "runtime monitoring: counter invariant over tick/fetch/command hooks with logical fuel",
         "rule": "case = (program ending outside user space / at 0xFFFF / on HALT, script of resuming commands, EOF); all sessions are non-trivial; distinct = hash of source and script",
@@ -294,7 +294,7 @@ PROPS = {
         "run": run_c20,
         "level": "exploration",
         "design_ref": "DESIGN.md section 4 C20",
-        "level_text": "Lockstep runtime monitor of the real line editor (constructed without TTY through the hook, fed from a key queue) against a plain reference editor: after every key the edited line, cursor and history focus must agree and the cursor must lie within the line; submitted lines and their ';' splitting must agree; panics are caught and located. Exhaustive over all key sequences up to length 5 (quick) / 6 (thorough) of a 16-key alphabet (ASCII, space, punctuation, ';', a 2-byte and a 4-byte character, every editing key) from an empty and a two-entry history, plus random sequences of 20-200 keys. At the CLI twenty sessions on a pseudo-terminal (standard output and standard error on the terminal or redirected to files): the lines submitted, read back from the history file in a private cache directory, are those a plain editor holds.",
+        "level_text": "Lockstep runtime monitor of the real line editor (constructed without TTY through the hook, fed from a key queue) against a plain reference editor: after every key the edited line, cursor and history focus must agree and the cursor must lie within the line; submitted lines and their ';' splitting must agree; panics are caught and located. Exhaustive over all key sequences up to length 5 (quick) / 6 (thorough) of a 16-key alphabet (ASCII, space, punctuation, ';', a 2-byte and a 4-byte character, every editing key) from an empty and a two-entry history, plus random sequences of 20-200 keys. At the CLI twenty sessions on a pseudo-terminal (standard output and standard error on the terminal or redirected to files): the lines submitted, read back from the history file in a private cache directory, are those a plain editor holds. Plus sessions on real pseudo-terminals: every stream combination, terminals of 20/40/80 columns, capitals and punctuation, two sessions open at once on one history file, and a history file that cannot be written.",
         "level_note": "Ctrl+Right with no next word accepts both Vim-style answers (stay on the first trailing blank / go to end of line).",
         "technique": "runtime monitoring: online reference-model comparison after every key, bounded-exhaustive key sequences; Miri on a reduced enumeration (thorough)",
         "rule": "case = chunk of 2048 key sequences (evaluations counts sequences); non-trivial = chunk with a sequence containing both an edit and a cursor movement",
@@ -314,7 +314,7 @@ PROPS = {
         "run": run_c07,
         "level": "exploration",
         "design_ref": "DESIGN.md section 4 C07",
-        "level_text": "Black-box agreement monitor: for each source and feature setting `lace check`, `lace compile` and `lace run` are run on the unmodified binary and their outcome classes (success / diagnostic / crash) compared pairwise; sources include label references out of range for every PC-relative form at every statement position, sources using the stack mnemonics with and without the flag, operand errors and valid programs. A `lace watch` process is driven through a history of rewrites (inotify) and each re-check compared with a fresh `lace check`.",
+        "level_text": "Black-box agreement monitor: for each source and feature setting `lace check`, `lace compile` and `lace run` are run on the unmodified binary and their outcome classes (success / diagnostic / crash) compared pairwise; sources include label references out of range for every PC-relative form at every statement position, sources using the stack mnemonics with and without the flag, operand errors and valid programs. A `lace watch` process is driven through a history of rewrites (inotify) and each re-check compared with a fresh `lace check`. Watch histories of seven to eleven versions (in-folder rename, equal size and date, empty file, warnings, a version saved twice, a sibling file saved) decide re-checks logically: a save that draws no re-check while the watcher sleeps, three times in one history, is a violation.",
         "level_note": "No reference model is needed: the oracle is agreement between the three commands.",
         "technique": "runtime monitoring (black box): differential exit-status/stdout observers across CLI subcommands, inotify-driven watch histories",
         "rule": "case = (source, feature flag) run through check, compile and run; distinct = distinct cases",
@@ -344,7 +344,7 @@ PROPS = {
         "run": run_c19,
         "level": "exploration",
         "design_ref": "DESIGN.md section 4 C19",
-        "level_text": "History monitor: sequences of 2-8 sources (valid, failing in the lexer, after labels were recorded, in backpatch, in emit; sharing label names with the predecessor; repeats) are assembled on one thread with reset_state() and StaticSource::new/src/reclaim exactly as the watch closure does; every result (image, origin, breakpoints, or the rendered diagnostic and its spans) must equal the result on a fresh thread. `lace watch` histories on the unmodified binary compare each re-check with a fresh `lace check`. Thorough: the same histories under Miri (use-after-reclaim, double free).",
+        "level_text": "History monitor: sequences of 2-8 sources (valid, failing in the lexer, after labels were recorded, in backpatch, in emit; sharing label names with the predecessor; repeats) are assembled on one thread with reset_state() and StaticSource::new/src/reclaim exactly as the watch closure does; every result (image, origin, breakpoints, or the rendered diagnostic and its spans) must equal the result on a fresh thread. `lace watch` histories on the unmodified binary compare each re-check with a fresh `lace check`. Thorough: the same histories under Miri (use-after-reclaim, double free). Plus compile histories at the CLI (two sources taking turns on one destination, old file dates, a failing text in between) against the reference image of each text, and watch histories with warnings, a version saved twice and saves of a sibling file.",
         "level_note": "Diagnostics are compared by message, spans and full rendering.",
         "technique": "runtime monitoring: same-thread history vs fresh-thread differential; inotify-driven watch process; Miri",
         "rule": "case = one history (evaluations counts sources); distinct = hash of the history",
